@@ -16,13 +16,20 @@ def end_suffix_free(h):
     return not any(pat.match(h[k:]) for k in range(len(h)))
 
 
+#: how a notice begins (documented tags: docs/man/reuse-annotate.rst, REUSE specification): the tag, then white space
+NOTICE_START = re.compile(r"(SPDX-(File|Snippet)CopyrightText:|Copyright|©)\s")
+
+
 def wf_holder(h: str) -> bool:
-    """The holders the property quantifies over (independent Python statement of Lean's WFHolder)."""
+    """The holders the property quantifies over (independent Python statement; Lean's WFHolder is the narrower
+    'no Copyright / © inside at all').  A holder that merely *begins like* a tag glued to more letters
+    ('Copyrighted Works Ltd.', '©tudio', '(C)ompany', 'SPDX-FileCopyrightTextual') or that carries the word
+    where no white space follows ('Acme Copyright') is a holder like any other."""
     if not h or h != h.strip() or any(c in h for c in SPLITLINES_BREAKS):
         return False
-    if "Copyright" in h or "©" in h:        # would itself be (part of) a notice
+    if NOTICE_START.search(h):                     # would itself be (or contain) a notice
         return False
-    if h.startswith("(C)") or h.startswith("(c)"):   # would extend the prefix
+    if re.match(r"\([Cc]\)\s", h):                 # '(C) Holder' would extend the prefix
         return False
     if re.match(r"\d", h[0]):                      # would be read as the year
         return False
@@ -31,6 +38,32 @@ def wf_holder(h: str) -> bool:
 
 def is_notice(h: str) -> bool:
     return impl_search(h) is not None
+
+
+GLUED_TAGS = ["Copyright", "©", "(C)", "(c)", "SPDX-FileCopyrightText", "SPDX-FileCopyrightText:", "SPDX-SnippetCopyrightText:", "Copyright (C)", "Copyright (c)"]
+GLUED_TAILS = ["ed Works Ltd.", "s Agency e.V. <https://rights.example>", "tudio Ñandú GmbH", "ompany", "ual", "-Free Software Ltd", "_x", "'s Best",
+               ".io", "/Left"]
+GLUED_HOLDERS = sorted({t + tail for t in GLUED_TAGS for tail in GLUED_TAILS if not (t.endswith(")") and tail[0] in "_")} | {
+    "Acme Copyright", "Acme ©", "Acme (C)", "non©ommercial", "Jane Copyrights Dept", "The Copyleft Copyright", "Copyright", "©", "(C)", "Team ©opy"})
+
+
+def notice_statements():
+    """Statements that already are notices: every documented tag — the ten --copyright-prefix texts, their (c) spellings and the
+    SPDX-SnippetCopyrightText: forms — then white space, optional years in every form the reader knows, then a holder."""
+    from reuse.copyright import _COPYRIGHT_PREFIXES
+    tags = list(_COPYRIGHT_PREFIXES.values())
+    tags += [t.replace("(C)", "(c)") for t in tags if "(C)" in t]
+    tags += [t.replace("SPDX-FileCopyrightText:", "SPDX-SnippetCopyrightText:") for t in tags if t.startswith("SPDX-File")]
+    years = [None, "2020", "2019-2021", "2019 - 2021", "2019 -2021", "2019- 2021", "2020,"]
+    holders = ["Jane Doe <jane@example.com>", "Example, Inc."]
+    out = []
+    for i, t in enumerate(tags):
+        for j, y in enumerate(years):
+            h = holders[(i + j) % 2]
+            out.append("%s %s%s" % (t, (y + " ") if y else "", h))
+            if (i + j) % 5 == 0:
+                out.append("%s\t%s%s" % (t, (y + "  ") if y else "", h))      # other white space between the parts
+    return out
 
 
 class MakeParseStream(textcorr.MkLineStream):
@@ -46,12 +79,22 @@ class MakeParseStream(textcorr.MkLineStream):
                                "Jane (maintainer)", "GmbH & Co. KG", "Jane Doe, John Doe", "x/y", "Jane #1", "100% Code Ltd", "C. Opyright",
                                "Copy Right Inc."]
 
+    # holders that merely begin like (or carry) a tag, glued to more characters or followed by nothing: holders like any other
+    HOLD = HOLD + GLUED_HOLDERS
+
     def cases(self, tier, rng):
         from reuse.copyright import _COPYRIGHT_PREFIXES
         for h in self.HOLD:
             for y in YEARS:
                 for p in _COPYRIGHT_PREFIXES:
                     yield {"h": h, "y": y, "p": p}
+        # statements that already are notices, in every notation (generator's ground truth: tag, white space, [years], holder)
+        prefs = list(_COPYRIGHT_PREFIXES)
+        for i, st in enumerate(notice_statements()):
+            combos = [(y, p) for y in YEARS for p in prefs] if tier == "thorough" else [
+                (YEARS[(i + k) % len(YEARS)], prefs[(i * 3 + k * 7) % len(prefs)]) for k in range(4)]
+            for y, p in combos:
+                yield {"h": st, "y": y, "p": p, "n": True}
 
     def oracle(self, case, impl_out):
         from reuse.copyright import _COPYRIGHT_PREFIXES
@@ -59,7 +102,7 @@ class MakeParseStream(textcorr.MkLineStream):
             return "make-crash: " + impl_out
         line = dec(impl_out)
         h, y, p = case["h"], case["y"], case["p"]
-        if is_notice(h):
+        if case.get("n") or NOTICE_START.search(h) or is_notice(h):
             return None if line == h else "not-verbatim: %r already is a notice but became %r" % (h, line)
         if not wf_holder(h):
             return None
@@ -286,6 +329,208 @@ class MergeCoverageStream(Stream):
         return {"lines": case["lines"]}
 
 
+# --------------------------------------------------------------------------
+# merging at the level of the header: create_header / find_and_replace_header / add_header_to_file / the command line
+
+
+#: year forms a person writes by hand and the reader knows (one year, a range with or without a blank on either side of the dash)
+HAND_YEARS = ["2009-2014", "2009 -2014", "2009- 2014", "2009 - 2014", "2012", "2012,", "1998", "2003-2004", "2016 - 2019", "2019", None]
+#: holders none of which is part of another (the oracle counts the lines naming a holder)
+MERGE_HOLDERS = ["Jane Doe <jane@example.com>", "Example, Inc.", "José Álvarez", "张三", "R&D Ltd.", "The FOO Developers"]
+MERGE_MODES = ["new-year", "same-line", "licence-only", "contributor-only", "other-holder", "new-year-other-prefix"]
+
+
+def notice_text(p, y, h):
+    return "%s %s%s" % (p, (y + " ") if y else "", h)
+
+
+def years_in(s):
+    return [int(x) for x in re.findall(r"(?<!\d)\d{4}(?!\d)", s or "")]
+
+
+def judge_merged(text, stated, where):
+    """Reader-independent: `stated` = [(holder, year text or None)] is everything the header held before and everything
+    requested (generator's ground truth).  In `text` every holder is named on exactly ONE line, and the four-digit years
+    on that line span every year stated for the holder."""
+    lines = re.split(r"\r\n|\r|\n", text)
+    holders = {}
+    for h, y in stated:
+        holders.setdefault(h, []).extend(years_in(y))
+    for h, ys in holders.items():
+        mine = [l for l in lines if h in l]
+        if not mine:
+            return "merge-holder-lost: holder %r is named nowhere in %s: %r" % (h, where, text[:300])
+        if len(mine) != 1:
+            return "merge-not-single: holder %r has %d lines in %s after --merge-copyrights: %r" % (h, len(mine), where, mine)
+        got = years_in(mine[0])
+        if ys and (not got or min(got) > min(ys) or max(got) < max(ys)):
+            return "merge-span: years %s were stated for %r, the one line in %s is %r" % (sorted(set(ys)), h, where, mine[0])
+    return None
+
+
+class HeaderMergeStream(Stream):
+    """--merge-copyrights where it is used: a header that already holds notices (several of one holder from earlier
+    non-merging runs, compact and spaced ranges written by hand), and a merging run that requests a new year, a line
+    that is already there character for character, no notice at all, or another holder."""
+    name = "headermerge"
+    rule = ("create_header(header=...) / find_and_replace_header / add_header_to_file with merge_copyrights, and histories of real `reuse "
+            "annotate` runs (k non-merging runs, then one with --merge-copyrights) read back with `reuse lint --json`: the existing header "
+            "(own comment style of 8 styles, or the .license pseudo style) holds 1-4 notices of 1-2 holders in 11 hand-written year forms "
+            "(2009-2014, 2009 -2014, 2009- 2014, 2009 - 2014, single years, trailing comma, none) under any of the ten prefixes; the "
+            "merging run requests {a new year, a new year under another prefix, a line already present character for character, only a "
+            "licence, only a contributor, another holder}; oracle from the generator's ground truth, without the tool's reader: every "
+            "holder stands on exactly one line of the result and that line's years span every year stated before or requested; "
+            "non-trivial = distinct (level, mode, style, number of notices of the merged holder)")
+    STYLES = ["PythonCommentStyle", "CCommentStyle", "CppCommentStyle", "HtmlCommentStyle", "LispCommentStyle", "TexCommentStyle",
+              "HaskellCommentStyle", "EmptyCommentStyle"]
+    LEVELS = ["create_header", "replace", "file", "file", "cli"]
+
+    def cases(self, tier, rng):
+        from reuse.copyright import _COPYRIGHT_PREFIXES
+        prefs = list(_COPYRIGHT_PREFIXES.items())
+        n = 1500 if tier == "thorough" else 260
+        for i in range(n):
+            level = self.LEVELS[i % len(self.LEVELS)]
+            mode = MERGE_MODES[(i // len(self.LEVELS)) % len(MERGE_MODES)]
+            hs = rng.sample(MERGE_HOLDERS, rng.choice([1, 1, 2]))
+            main = hs[0]
+            truth = []
+            for _ in range(rng.choice([1, 2, 2, 3, 3, 4])):
+                k, p = rng.choice(prefs)
+                t = [k, p, rng.choice(HAND_YEARS), main if rng.random() < 0.75 else rng.choice(hs)]
+                if level == "cli":
+                    t[2] = rng.choice(["2012", "1998", "2019", "2009 - 2014", "2003 - 2004", None])      # what --year can say
+                if not any(notice_text(x[1], x[2], x[3]) == notice_text(t[1], t[2], t[3]) for x in truth):
+                    truth.append(t)
+            if mode == "new-year":
+                k, p = rng.choice([(x[0], x[1]) for x in truth if x[3] == main] or prefs)
+                req = [[k, p, rng.choice(["2021", "1990", "2011", "2020 - 2023"]), main]]
+            elif mode == "new-year-other-prefix":
+                k, p = rng.choice(prefs)
+                req = [[k, p, rng.choice(["2021", "1990", "2011"]), main]]
+            elif mode == "same-line":
+                req = [list(rng.choice(truth))]
+            elif mode == "other-holder":
+                k, p = rng.choice(prefs)
+                req = [[k, p, rng.choice(["2021", None, "2001-2002"]), rng.choice([h for h in MERGE_HOLDERS if h not in hs])]]
+            else:
+                req = []
+            yield {"level": level, "mode": mode, "s": rng.choice(self.STYLES) if level != "cli" else rng.choice(["PythonCommentStyle", "CCommentStyle", "HtmlCommentStyle", "EmptyCommentStyle"]),
+                   "truth": truth, "req": req, "lic_old": rng.choice([[], ["MIT"], ["ISC", "MIT"]]),
+                   "lic": ["Apache-2.0"] if mode == "licence-only" or rng.random() < 0.3 else [],
+                   "con": ["Alice"] if mode == "contributor-only" or rng.random() < 0.15 else [],
+                   "shebang": rng.random() < 0.25, "multi": rng.random() < 0.3, "body": rng.choice(["", "x = 1\n", "x = 1\n\ny = 2"]),
+                   "le": rng.choice(["\n", "\n", "\n", "\r\n", "\r"])}
+
+    # ---- the text the merging run meets (header-level cases)
+    def _old_block(self, case):
+        import annotcorr
+        st = annotcorr.style_by_name(case["s"])
+        hdr = "\n".join([notice_text(p, y, h) for k, p, y, h in case["truth"]] + ([""] if case["lic_old"] else [])
+                        + ["SPDX-License-Identifier: " + l for l in case["lic_old"]])
+        return st, st.create_comment(hdr, force_multi=case["multi"] and st.can_handle_multi())
+
+    def _info(self, case):
+        from reuse import ReuseInfo, _LICENSING
+        return ReuseInfo(spdx_expressions={_LICENSING.parse(x) for x in case["lic"]}, copyright_lines={notice_text(p, y, h) for k, p, y, h in case["req"]},
+                         contributor_lines=set(case["con"]))
+
+    def impl(self, case):
+        import annotcorr
+        from reuse.header import create_header, find_and_replace_header
+        if case["level"] == "cli":
+            return self._impl_cli(case)
+        st, block = self._old_block(case)
+        if case["level"] == "create_header":
+            return "W:" + enc(create_header(self._info(case), header=block + "\n", style=st, merge_copyrights=True))
+        first = (st.SHEBANGS[0] + " first line\n") if (case["shebang"] and st.SHEBANGS) else ""
+        text = first + block + "\n" + ("\n" + case["body"] if case["body"] else "")
+        if st.__name__ == "EmptyCommentStyle":
+            text = block + "\n"
+        if case["level"] == "replace":
+            return "W:" + enc(find_and_replace_header(text, self._info(case), style=st, merge_copyrights=True))
+        text = text.replace("\n", case["le"])
+        c = {"s": case["s"], "f": "00110", "tmpl": "default", "cpr": sorted(self._info(case).copyright_lines), "lic": case["lic"], "con": case["con"], "t": text}
+        if st.__name__ == "EmptyCommentStyle":
+            c.update(ext=".zzz", sib=text, t="payload\n")
+        return annotcorr.run_annotate(c)
+
+    def _impl_cli(self, case):
+        import json
+        import cli
+        name = {"PythonCommentStyle": "f.py", "CCommentStyle": "f.c", "HtmlCommentStyle": "f.html", "EmptyCommentStyle": "f.zzz"}[case["s"]]
+        dot = ["--fallback-dot-license"] if case["s"] == "EmptyCommentStyle" else []
+        with cli.scratch("rv-c20-") as root:
+            cli.write_tree(root, {name: case["body"] or "payload = 1\n", "LICENSES/MIT.txt": "MIT\n"})      # lint passes over empty files
+            rcs = []
+            steps = [(t, False) for t in case["truth"]] + [(None, True)]
+            for t, merge in steps:
+                argv = ["annotate"]
+                if merge:
+                    for k, p, y, h in case["req"]:
+                        argv += ["--copyright", h, "--copyright-prefix", k] + (self._year_args(y))
+                    for l in case["lic"]:
+                        argv += ["--license", l]
+                    for c in case["con"]:
+                        argv += ["--contributor", c]
+                    if not case["req"] and not case["lic"] and not case["con"]:
+                        argv += ["--license", "MIT"]
+                    argv.append("--merge-copyrights")
+                else:
+                    k, p, y, h = t
+                    argv += ["--copyright", h, "--copyright-prefix", k] + self._year_args(y)
+                    if not rcs and case["lic_old"]:
+                        argv += ["--license", case["lic_old"][0]]
+                code, out, exc = cli.run_cli(argv + dot + [name], root)
+                if exc is not None:
+                    return "EXC:%s:%s" % (type(exc).__name__, str(exc)[:100])
+                rcs.append(code)
+            target = name + ".license" if dot else name
+            with open(root + "/" + target, "r", encoding="utf-8", newline="") as fp:
+                text = fp.read()
+            code, js, exc = cli.lint_json(root)
+            read = []
+            if js is not None:
+                for f in js.get("files", []):
+                    if f["path"] == name:
+                        read = sorted(c["value"] for c in f["copyrights"])
+            return "C:" + json.dumps({"rcs": rcs, "text": text, "lint": read}, sort_keys=True)
+
+    @staticmethod
+    def _year_args(y):
+        if y is None:
+            return ["--exclude-year"]
+        ys = re.findall(r"\d{4}", y)
+        out = []
+        for v in ys:
+            out += ["--year", v]
+        return out
+
+    def oracle(self, case, impl_out):
+        import json
+        if impl_out.startswith("EXC"):
+            return "merge-crash: " + impl_out
+        stated = [(h, y) for k, p, y, h in case["truth"]] + [(h, y) for k, p, y, h in case["req"]]
+        if impl_out.startswith("C:"):
+            out = json.loads(impl_out[2:])
+            if any(out["rcs"]):
+                return "merge-run-failed: exit statuses %r of the annotate runs" % (out["rcs"],)
+            why = judge_merged(out["text"], stated, "the annotated file")
+            if why is None:
+                why = judge_merged("\n".join(out["lint"]), stated, "the notices `reuse lint --json` reads")
+            return why
+        if not impl_out.startswith("W:"):
+            return "merge-run-failed: %s" % impl_out
+        return judge_merged(dec(impl_out[2:]), stated, "the new header")
+
+    def nontrivial(self, case, impl_out):
+        main = case["truth"][0][3]
+        return (case["level"], case["mode"], case["s"], sum(1 for t in case["truth"] if t[3] == main)) if impl_out[:2] in ("W:", "C:") else None
+
+    def show(self, case):
+        return case
+
+
 class YearOptionStream(Stream):
     name = "years"
     exhaustive = True
@@ -322,7 +567,7 @@ class YearOptionStream(Stream):
 
 PROPERTY = Property(
     pid="C20",
-    streams=[textcorr.CSearchStream(), MakeParseStream(), TheoremStream(), textcorr.MergeStream(), MergeOracleStream(), MergeCoverageStream(), YearOptionStream()] + pystr.DIGIT_STREAMS,
+    streams=[textcorr.CSearchStream(), MakeParseStream(), TheoremStream(), textcorr.MergeStream(), MergeOracleStream(), MergeCoverageStream(), HeaderMergeStream(), YearOptionStream()] + pystr.DIGIT_STREAMS,
     assumptions=[
         "CPython's re engine on the three copyright patterns is mirrored by Model.searchLine (prefix extension candidates in backtracking "
         "priority, greedy white space, year alternatives, lazy statement up to END) and compared on every run; END is generated from the source",
